@@ -12,14 +12,7 @@ use crate::printer::Printer;
 use crate::build::{BuildError, BuildParams};
 use crate::work::WorkError;
 
-pub struct Rng(pub u64);
-impl Rng
-{
-    pub fn new(seed : u64) -> Rng { Rng(0x9E3779B97F4A7C15u64.wrapping_mul(seed.wrapping_add(0x1234567)) | 1) }
-    pub fn next(&mut self) -> u64 { self.0 ^= self.0 << 13; self.0 ^= self.0 >> 7; self.0 ^= self.0 << 17; self.0 }
-    pub fn below(&mut self, n : usize) -> usize { if n == 0 { 0 } else { (self.next() % (n as u64)) as usize } }
-    pub fn chance(&mut self, num : usize, den : usize) -> bool { self.below(den) < num }
-}
+pub use crate::gen::Rng;
 
 pub enum Sched { Serial, Random(Rng), Scripted(VecDeque<String>) }
 
@@ -476,17 +469,4 @@ pub fn ord_of(rules_menu : &Vec<Vec<XRule>>, extra : &[&str]) -> Vec<String>
     set.into_iter().collect()
 }
 
-pub fn write_lines(path : &str, lines : &Vec<Value>)
-{
-    use std::io::Write;
-    let mut f = std::io::BufWriter::new(std::fs::File::create(path).expect("create trace file"));
-    for l in lines { writeln!(f, "{}", l).unwrap(); }
-}
-
-#[allow(dead_code)]
-pub fn counts(lines : &Vec<Value>) -> BTreeMap<String, usize>
-{
-    let mut m = BTreeMap::new();
-    for l in lines { *m.entry(l["a"].as_str().unwrap_or("?").to_string()).or_insert(0) += 1; }
-    m
-}
+pub use crate::gen::{write_lines, counts};
